@@ -141,7 +141,7 @@ def lean_build(pid):
 
 
 # ---------------------------------------------------------------- Rust side
-def harness_build():
+def harness_build(need_plain=True):
     os.makedirs(CACHE, exist_ok=True)
     lock_src = os.path.join(REPO, 'Cargo.lock')
     lock_dst = os.path.join(HARNESS, 'Cargo.lock')
@@ -151,6 +151,8 @@ def harness_build():
     rc, out = run(['cargo', 'build', '--offline'], cwd=HARNESS, timeout=3600)
     if rc != 0:
         return False, out[-6000:]
+    if not need_plain:
+        return True, out[-6000:]
     rc2, out2 = run(['cargo', 'build', '--offline', '--no-default-features', '--target-dir', os.path.join(CACHE, 'target-plain')],
                     cwd=HARNESS, timeout=3600)
     return rc2 == 0, (out + out2)[-6000:]
@@ -279,7 +281,7 @@ def check(pid, tier, seed):
             print('CHECK-BROKEN lean-driver-build')
             log(lb['log'])
             return 2
-        hok, hlog = harness_build()
+        hok, hlog = harness_build(any(op.startswith('@plain ') for op in spec['ops']))
         if not hok:
             print('CHECK-BROKEN harness-build')
             log(hlog)
